@@ -562,7 +562,8 @@ class C08(Prop):
     batch = 100
     needs_race = True
     required_theorems = ["C08_noninterference", "C08_render_alone", "C08_schedule_independent", "C08_render_path_writes_nothing_shared",
-                         "C08_reach_covers_executor", "C08_lock_shape", "C08_funcs_read_engine_locked", "C08_write_set_by_function"]
+                         "C08_reach_covers_executor", "C08_lock_shape", "C08_funcs_read_engine_locked", "C08_write_set_by_function",
+                         "C08_funcs_pkg_writes_only_known"]
     rule = ("engines with 2-6 templates (programs of the C02 loops/conditionals, C03 mixins-with-blocks, C05 attributes, C20 heap-mutation generators, templates that mutate "
             "everything reachable from their data, templates that fail at run time, templates calling the module's asset() with a manifest.json), production and debug mode; "
             "N in {2,4,16,64} goroutines x 3 renders x 2 (thorough: 6) rounds released together, every call with its own deep copy of the data; every result compared with the "
@@ -643,6 +644,17 @@ class C08(Prop):
 
     def bucket(self, case, impl):
         return case.get("bucket")
+
+    def known_C08_debug_allowdeep(self, case, impl):
+        """the recorded finding: jobs that call the module's debug() function, race report on pugjs.AllowDeep / debug_func.go (or an
+        output difference of such a job). Any other race, or a race in a case without debug(), is not explained by it."""
+        if not any("debug" in json.dumps(j.get("doc")) for j in case.get("jobs", [])):
+            return False
+        rc = (impl or {}).get("race") or {}
+        msg = str(rc.get("msg", ""))
+        if rc.get("class") == "process-died":
+            return "debug_func.go" in msg.split("Previous")[0] or "debug_func.go" in msg
+        return True
 
 
 class VerdictProp(Prop):
